@@ -75,7 +75,7 @@ fn run(r: &mut Run) -> Result<(), MachineryError> {
 
     // (ii) well-formed strings
     let alpha = [L, W, CM, E2, EM, TAB, SP, CSI, CSI2, OSB, OSS, OSBS, OSCE, BSL];
-    let n = t.pick(4, 6);
+    let n = t.pick(5, 7);
     let space = Space { name: "C10/wellformed-strings".into(), menu: menu(&alpha), max_len: n, desc: format!("strings of length <= {}: display_width == sum of reference widths of the visible characters; additive over every split of ESC-free strings; unchanged by inserting each of {:?} at every symbol boundary; <= byte length", n, SEQS) };
     r.space(space, |seq, cx| {
         let syms: Vec<String> = seq.iter().map(|&k| build(&[k], &alpha)).collect();
@@ -125,7 +125,7 @@ fn run(r: &mut Run) -> Result<(), MachineryError> {
 
     // (iii) raw pieces: byte-length bound on every string, well-formed or not
     let raw = [L, W, ESC, LBR, RBR, BSL, BEL, LM, SEMI, D];
-    let n = t.pick(5, 7);
+    let n = t.pick(6, 8);
     let space = Space { name: "C10/raw-escape-pieces".into(), menu: menu(&raw), max_len: n, desc: format!("strings of length <= {} over raw escape pieces (mostly malformed/truncated sequences): display_width <= byte length; for the well-formed ones also == reference", n) };
     r.space(space, |seq, cx| {
         let s = build(seq, &raw);
